@@ -258,13 +258,13 @@ theorem exchangeOutcomes_spec (cf : MG Var) (outcomes : Event) (c : Var) (val : 
 
 /-! ### C. rule 2 never accepts a condition named like an outcome -/
 
-theorem firstExchangeable_rule2 (cf : MG Var) (os : List Var) : ∀ (cs : List Var) (c : Var),
-    firstExchangeable cf os cs = .ok (some c) → rule2Applies cf os c = .ok true
-  | [], c, h => by simp [firstExchangeable] at h
+theorem firstExchangeableIn_rule2 (cf : MG Var) (os all : List Var) : ∀ (cs : List Var) (c : Var),
+    firstExchangeableIn cf os all cs = .ok (some c) → rule2Applies cf os c (all.filter (fun k => k ≠ c)) = .ok true
+  | [], c, h => by simp [firstExchangeableIn] at h
   | x :: xs, c, h => by
-    unfold firstExchangeable at h
+    unfold firstExchangeableIn at h
     simp only [bind, Except.bind, pure, Except.pure] at h
-    cases hr : rule2Applies cf os x with
+    cases hr : rule2Applies cf os x (all.filter (fun k => k ≠ x)) with
     | error e => rw [hr] at h; cases h
     | ok b =>
       rw [hr] at h
@@ -275,7 +275,11 @@ theorem firstExchangeable_rule2 (cf : MG Var) (os : List Var) : ∀ (cs : List V
         exact hr
       | false =>
         simp only [Bool.false_eq_true, if_false] at h
-        exact firstExchangeable_rule2 cf os xs c h
+        exact firstExchangeableIn_rule2 cf os all xs c h
+
+theorem firstExchangeable_rule2 (cf : MG Var) (os : List Var) (cs : List Var) (c : Var)
+    (h : firstExchangeable cf os cs = .ok (some c)) : rule2Applies cf os c (cs.filter (fun k => k ≠ c)) = .ok true :=
+  firstExchangeableIn_rule2 cf os cs cs c h
 
 /-- **rule 2 of the do-calculus, as tested on the counterfactual graph, never applies to a condition that is a copy of an
 outcome variable** (keys not self-intervened) -/
@@ -283,7 +287,7 @@ theorem rule2_name_free {ordf : List World → List World} (hord : PermOrder ord
     (hdl : ∀ e ∈ G.di, e.1 ≠ e.2) (hbl : ∀ e ∈ G.bi, e.1 ≠ e.2) {ev : Event} (hev : EvOK ev)
     (hk : ∀ k ∈ ev.keys, KeyOK G k) {g : MG Var} {nev : Event}
     (hcg : makeCounterfactualGraph ordf G ev = .ok (g, some nev)) (os : List Var) (c : Var)
-    (hr : rule2Applies g os c = .ok true) (o : Var) (ho : o ∈ os) (hon : o ∈ nev.keys) (hcn : c ∈ nev.keys)
+    (others : List Var) (hr : rule2Applies g os c others = .ok true) (o : Var) (ho : o ∈ os) (hon : o ∈ nev.keys) (hcn : c ∈ nev.keys)
     (hno : isNotSelfIntervened o = true) (hnc : isNotSelfIntervened c = true) :
     o.name ≠ c.name := by
   intro hname
